@@ -5,6 +5,7 @@ package main
 import (
 	"fmt"
 	"strings"
+	"testing/synctest"
 	"time"
 
 	zxcvbn "github.com/nbutton23/zxcvbn-go"
@@ -31,7 +32,7 @@ func propC12(r *Run) {
 		model := w.populateDir(cfg, 2+r.Choose("nusers", 3), true)
 		users := sortedKeysA(model)
 		// some users get passwords that straddle a policy
-		pwChoices := []string{"", "correct horse battery staple", "Tr0ub4dor&3", "password", "qwerty", "zQ9#vLp2!xTe"}
+		pwChoices := []string{"", "correct horse battery staple", "Tr0ub4dor&3", "password", "qwerty", "zQ9#vLp2!xTe", " leading and trailing blanks ", "tab-terminated passphrase\t", "newline-terminated\n", "UPPER lower"}
 		for _, u := range users {
 			if k := r.Choose("repw", len(pwChoices)); k > 0 {
 				m := model[u]
@@ -95,9 +96,27 @@ func propC12(r *Run) {
 		sets := cfg.SetMap()
 		def := sets[cfg.Default]
 		nlogins := 3 + r.Choose("nlogins", 10)
+		if mode == "remote" {
+			nlogins += r.Choose("nlogins-remote", 20) // long enough for failures to accumulate, then recover
+		}
 		var trace []string
 		for i := 0; i < nlogins; i++ {
 			time.Sleep([]time.Duration{0, time.Second, 3 * time.Second, time.Hour}[r.Choose("clock", 4)])
+			if mode == "remote" && r.Choose("master-changes", 6) == 0 {
+				// the master's health changes over time (down, back up, ...)
+				w.rtMu.Lock()
+				w.rtMode = []string{"deliver", "refuse", "deliver", "stall"}[r.Choose("master-behaviour2", 3)]
+				// requests that were parked at a stalled master are lost (their connections die), so
+				// that every later change of the master's store belongs to the login under test
+				lost := w.rtPending
+				w.rtPending = nil
+				w.rtMu.Unlock()
+				for _, p := range lost {
+					w.deliverHTTP(p, "drop")
+				}
+				synctest.Wait()
+				r.Logf("master is now %q", w.rtMode)
+			}
 			u := users[r.Choose("login-user", len(users))]
 			m := model[u]
 			right := r.Choose("right-pw", 3) > 0
